@@ -164,6 +164,21 @@ class EngineCheck(PropertyCheck):
                     continue
                 f = dict(f)
                 f["pending_discovered_dropped"] = dropped
+                # F22 needs a FAILED or CANCELLED build before the stale result (a pending discovered dependency can only be
+                # dropped by one; a successful build that returns with one pending is rejected by the monitor)
+                upto = f.get("input", {}).get("case_op") if isinstance(f.get("input"), dict) else None
+                failed_before, li = False, 2
+                for oi, o in enumerate(c.ops):
+                    if upto is not None and oi >= upto:
+                        break
+                    if o["op"] in ("B", "K"):
+                        tr = h[li] if li < len(h) else ""
+                        if o["op"] == "K" or any(e.split()[:1] in (["X"], ["CY"], ["ER"]) for e in tr.split(" ; ")):
+                            failed_before = True
+                        li += 2 if o["op"] == "B" else 1
+                    else:
+                        li += 1
+                f["after_failed_build"] = failed_before
                 f["input"] = {"where": f["input"], "ops": c.harness_lines()}
                 res.oracle_failures.append(f)
             res.evaluations += 1
